@@ -57,6 +57,11 @@ Expand(segs) ==     \* all spellings of a segment list, enumerations ascending (
 \* enabling toggle (state: function from toggle ids to BOOLEAN) is off are skipped
 RECURSIVE WalkT(_, _, _, _)
 WalkT(tb, prefix, rt, state) ==
+  \* a table may switch ITSELF off (its "self:" port is 'enabled by' a toggle of the same table, selfen = that toggle's id): the walk then
+  \* reports the enabling port only - "an enabling port must always be traversed" (ports.cpp) - and nothing else of the table
+  IF rt /\ "selfen" \in DOMAIN tb /\ tb.selfen # 0 /\ ~ state[tb.selfen]
+  THEN LET e == CHOOSE i \in 1..Len(tb.ports) : tb.ports[i].id = tb.selfen IN << [id |-> tb.selfen, addr |-> prefix \o Expand(tb.ports[e].pat.segs)[1]] >>
+  ELSE
   Concat([i \in 1..Len(tb.ports) |->
     LET p == tb.ports[i]  names == Expand(p.pat.segs) IN
     IF p.leaf THEN [n \in 1..Len(names) |-> [id |-> p.id, addr |-> prefix \o names[n]]]
